@@ -203,10 +203,7 @@ def _decoder_lifetime(ctx):
         for c in ast.walk(m):
             if isinstance(c, ast.Call) and isinstance(c.func, ast.Attribute) and norm(c.func.value) == "self" and c.func.attr in creators and m.name not in creators:
                 callers.setdefault(c.func.attr, set()).add(m.name)
-    reach = set(creators)
-    for cr, ms in callers.items():
-        reach |= ms
-    ok = reach <= {"__init__"} | {c for c in creators if callers.get(c, set()) <= {"__init__"}}
+    ok = all(c == "__init__" or (callers.get(c) and callers[c] <= {"__init__"}) for c in creators)
     ctx.ob("C35.R7", F + ":RspHandler", "the decoder is created from __init__ only (a half-received packet survives nacks and retransmissions of our own packets)", ok, construct="decoder-created-once",
            detail="created in %s; called from %s" % (sorted(creators), {k: sorted(v) for k, v in callers.items()}))
     ini = ctx.fn(F, "RspHandler.__init__")
